@@ -412,7 +412,18 @@ def gen_schema(st, want_mutation=False, small=False,
             if b == "tdefault" and tname == "Subscription":
                 b = "sync"
             spec.behaviours[(tname, f)] = b
-    spec.share_fields = st.chance(1, 3, "share_fields")
+    spec.share_fields = st.chance(1, 2, "share_fields")
+    if spec.share_fields:
+        # fields listed by several object types are then mostly left to the
+        # per-type default resolvers (each type has its own)
+        owners = {}
+        for (tname, f), b in spec.behaviours.items():
+            if tname in obj_names:
+                owners.setdefault(f, []).append(tname)
+        for f, ts in sorted(owners.items()):
+            if len(ts) >= 2 and st.chance(1, 2, "share_tdefault"):
+                for tname in ts:
+                    spec.behaviours[(tname, f)] = "tdefault"
     for aname in list(spec.interfaces) + list(spec.unions):
         spec.resolve_type[aname] = ("attr", "fn-type", "fn-name")[
             st.below(3, "rt")
@@ -578,6 +589,9 @@ class OpGen:
         if base == "String":
             v = STR_VALUES[st.below(len(STR_VALUES), "str")]
             shape = st.below(3, "str_shape")
+            if "\\" in v and '"' not in v.replace('"""', "") and \
+                    st.chance(1, 2, "block_for_backslash"):
+                shape = 2  # raw backslashes are a block string's business
             if any(ord(ch) > 0xFFFF for ch in v):
                 # astral characters are written raw: how a \uD83C\uDF88
                 # escape pair decodes is a lexer matter (C02), not workload
